@@ -111,6 +111,15 @@ def main():
             "detected_by_target_check": res[prop]["exit"] == 1,
             "detected_by_any_check": bool(fired),
         }
+        # the verdict of the checks as they were when the change was first collected is kept for good
+        old_meta = os.path.join(d, "meta.json")
+        if os.path.exists(old_meta):
+            meta["first_try"] = json.load(open(old_meta)).get("first_try")
+        if not meta.get("first_try"):
+            t = res[prop]
+            meta["first_try"] = ("VIOLATION " + "/".join(t["rules"])) if t["exit"] == 1 else (
+                "fail-closed (exit 2)" if t["exit"] == 2 else ("missed by %s" % prop + (
+                    " (%s fired)" % ", ".join("%s %s" % (c, "/".join(r["rules"])) for c, r in fired.items()) if fired else "")))
         json.dump(meta, open(os.path.join(d, "meta.json"), "w"), indent=1)
     return 0
 
